@@ -80,6 +80,19 @@ pub fn tamperings(r: &mut Rng, h: &Honest, other: Option<&Honest>, positions: us
     }
     let parts: Vec<&str> = jwt.split('.').collect();
     if parts.len() == 3 {
+        // characters outside the base64url alphabet (padding, standard-alphabet characters, blanks) at the ends of each part
+        for (pi, pname) in ["header", "payload", "signature"].iter().enumerate() {
+            for extra in ["=", "==", "+", "/", " ", "%3D"] {
+                for at_end in [true, false] {
+                    if !all_positions && !at_end && r.chance(2, 3) {
+                        continue;
+                    }
+                    let mut ps: Vec<String> = parts.iter().map(|x| x.to_string()).collect();
+                    ps[pi] = if at_end { format!("{}{}", ps[pi], extra) } else { format!("{}{}", extra, ps[pi]) };
+                    out.push(mk(&format!("nonalphabet-{}-{}: {:?} {}", if at_end { "appended" } else { "prepended" }, pname, extra, pi), h, with_jwt(h, ps.join(".")), honest_resolver.clone(), kb && r.chance(1, 2)));
+                }
+            }
+        }
         // payload re-encoded with a claim or digest changed
         if let Some(mut pl) = h.pres.payload() {
             if let Some(m) = pl.as_object_mut() {
